@@ -10,4 +10,8 @@ def main (args : List String) : IO UInt32 := do
   | ["C02"] => Proto.runLoop C02.driverStep {}; return 0
   | ["C03"] => Proto.runLoop C03.driverStep {}; return 0
   | ["C15"] => Proto.runLoop C15.driverStep (); return 0
+  | ["C12"] => Proto.runLoop C12.driverStep {}; return 0
+  | ["C09"] => Proto.runLoop C09.driverStep (); return 0
+  | ["C20"] => Proto.runLoop (C20.driverStep C20.Generated.schema) none; return 0
+  | ["C11"] => Proto.runLoop C11.driverStep (); return 0
   | _ => IO.eprintln s!"unknown driver {args}"; return 2
